@@ -24,7 +24,7 @@ type histCase struct {
 func histories(r *engine.Rec) {
 	maxN := 3
 	if r.Tier == "thorough" {
-		maxN = 5
+		maxN = 7
 	}
 	total := 0
 	for _, source := range []string{"agent", "list", "array"} {
